@@ -9,7 +9,7 @@ for id in "$@"; do
   git -C /repo worktree add --detach "$wt" HEAD >/dev/null 2>&1 || { echo "cannot add $wt"; continue; }
   grep "\"id\": \"$id\"" /verif/properties.jsonl > "$wt/PROPERTY.json"
   : > "$wt/ALREADY_TRIED.md"
-  for old in /tmp/wt /tmp/wt2 /tmp/wt3 /tmp/wt4 /tmp/wt5 /tmp/wt6; do
+  for old in /tmp/wt /tmp/wt2 /tmp/wt3 /tmp/wt4 /tmp/wt5 /tmp/wt6 /tmp/wt7 /tmp/wt8; do
     [ "$old" = "$root" ] && continue
     [ -f "$old/$id/mutants/README.md" ] && { echo; echo "# ---- earlier round ($old)"; cat "$old/$id/mutants/README.md"; } >> "$wt/ALREADY_TRIED.md"
   done
